@@ -3,6 +3,7 @@ import z3
 
 from pyvc.contract import Contract
 from pyvc.runner import ContractTask
+from pyvc.automat import AutomatSupport
 from pyvc.values import *   # noqa
 from pyvc import values
 from .common import make_registry, install_trace_funcs, register_classes
@@ -14,57 +15,94 @@ values.NT_DEFS.update({
     "Open": [("seqnum", "int"), ("scid", "int"), ("subprotocol", "str")],
     "Data": [("seqnum", "int"), ("scid", "int"), ("data", "bytes")],
     "Close": [("seqnum", "int"), ("scid", "int")], "Ack": [("resp_seqnum", "int")],
-    "Frame": [("frame", "bytes")],
+    "Frame": [("frame", "bytes")], "Prologue": [], "RelayOk": [], "Handshake": [],
 })
 RECORD = "union[nt[KCM],nt[Ping],nt[Pong],nt[Open],nt[Data],nt[Close],nt[Ack]]"
 U32 = 4294967296
 
 
+def _noise_ufs():
+    from pyvc.models import uf
+    return uf("noise_ok", IntS, StringS, BoolS), uf("noise_dec", IntS, StringS, StringS)
+
+
+def _ghost(it, recv, name, ty):
+    recv = it.force(recv)
+    if name not in recv.fields:
+        recv.fields[name] = it.fresh(ty, "noise." + name)
+    return recv.fields[name]
+
+
 def noise_encrypt(it, recv, meth, args, kwargs, fr):
-    """assumed Noise contract: ciphertext is 16 bytes longer than the plaintext (AEAD tag);
-    plaintexts up to NOISE_MAX_PAYLOAD only"""
+    """assumed Noise contract (AEAD with a stateful nonce): the ciphertext is 16 bytes longer than the plaintext (tag);
+    plaintexts up to NOISE_MAX_PAYLOAD only; the ciphertext made at sending nonce n is accepted at receiving nonce n and
+    decrypts to the plaintext: noise_ok(n, c) and noise_dec(n, c) == p; the nonce counter advances by one"""
+    ok, dec = _noise_ufs()
     m = it.force(args[0])
+    n = _ghost(it, recv, "tx", "int")
     c = z3.String(it.ctx.namer("noise_ct"))
     it.ctx.assume(z3.Length(c) == z3.Length(m.z) + 16)
     it.ctx.prove(z3.Length(m.z) <= 65519, "noise.encrypt.payload-fits-one-packet",
                  {"kind": "call-requires", "src": "len(plaintext) <= NOISE_MAX_PAYLOAD at every noise.encrypt()"})
+    it.ctx.assume(ok(n.z, c))
+    it.ctx.assume(dec(n.z, c) == m.z)
+    it.force(recv).fields["tx"] = VInt(n.z + 1)
     it.ctx.event("noise.encrypt", m, VStr(c, "bytes"))
     return VStr(c, "bytes")
 
 
 def noise_decrypt(it, recv, meth, args, kwargs, fr):
-    """either NoiseInvalidMessage (not produced with the key / out of sequence / too short) or a
-    plaintext 16 bytes shorter"""
+    """at receiving nonce n: NoiseInvalidMessage iff not noise_ok(n, c) (not produced with the key at this nonce, corrupted,
+    too short), else the plaintext noise_dec(n, c), 16 bytes shorter, and the nonce counter advances by one"""
+    ok, dec = _noise_ufs()
     c = it.force(args[0])
+    n = _ghost(it, recv, "rx", "int")
+    _ghost(it, recv, "failed", "bool")
     it.ctx.prove(z3.Length(c.z) <= 65535, "noise.decrypt.ciphertext-fits-one-packet",
                  {"kind": "call-requires", "src": "len(ciphertext) <= NOISE_MAX_CIPHERTEXT at every noise.decrypt()"})
-    if it.ctx.choose([z3.BoolVal(True), z3.BoolVal(True)], "noise.decrypt") == 1:
+    if not it.ctx.branch(ok(n.z, c.z), "noise.decrypt"):
+        it.force(recv).fields["failed"] = VBool(True)
         it.ctx.event("noise.decrypt.invalid", c)
         it.raise_("NoiseInvalidMessage")
-    m = z3.String(it.ctx.namer("noise_pt"))
+    m = dec(n.z, c.z)
     it.ctx.assume(z3.Length(c.z) >= 16)
     it.ctx.assume(z3.Length(m) == z3.Length(c.z) - 16)
+    it.force(recv).fields["rx"] = VInt(n.z + 1)
     it.ctx.event("noise.decrypt", c, VStr(m, "bytes"))
     return VStr(m, "bytes")
 
 
 def noise_read_message(it, recv, meth, args, kwargs, fr):
+    """the handshake message is either rejected (NoiseInvalidMessage: not made with the dilation key) or accepted"""
+    _ghost(it, recv, "failed", "bool")
     if it.ctx.choose([z3.BoolVal(True), z3.BoolVal(True)], "noise.read_message") == 1:
+        it.force(recv).fields["failed"] = VBool(True)
+        it.ctx.event("noise.read_message.invalid", it.force(args[0]))
         it.raise_("NoiseInvalidMessage")
     return VStr(z3.String(it.ctx.namer("hs_payload")), "bytes")
+
+
+def noise_write_message(it, recv, meth, args, kwargs, fr):
+    """assumed: a Noise handshake message is at most one Noise packet (65535 bytes)"""
+    m = z3.String(it.ctx.namer("noise_hs_out"))
+    it.ctx.assume(z3.Length(m) <= 65535)
+    it.ctx.event("bcall", "Noise", "write_message", [], {})
+    it.ctx.event("noise.write_message", VStr(m, "bytes"))
+    return VStr(m, "bytes")
 
 
 def regf(exclude=()):
     reg = make_registry()
     install_trace_funcs(reg)
     register_classes(reg, ["wormhole/errors.py", "wormhole/_dilation/connection.py"])
-    for c in CONTRACTS:
+    for c in CONTRACTS + GEN_CONTRACTS:
         if c.target not in exclude:
             reg.contracts[c.target] = c
     reg.boundary["Noise.encrypt"] = noise_encrypt
     reg.boundary["Noise.decrypt"] = noise_decrypt
     reg.boundary["Noise.read_message"] = noise_read_message
     reg.class_fields["_Framer"] = {"_can_send_frames": "bool", "_transport": "obj[Transport]", "_buffer": "bytes"}
+    reg.class_fields["Noise"] = {"tx": "int", "rx": "int", "failed": "bool"}     # ghost: nonce counters, "rejected something"
     sf = reg.spec_funcs
 
     def events(it, name):
@@ -77,6 +115,12 @@ def regf(exclude=()):
 
     sf["ceil_div"] = ceil_div
     sf["min2"] = lambda it, a, b: VInt(z3.If(a.z < b.z, a.z, b.z))
+    from pyvc import models as _m
+    sf["be_value4"] = lambda it, s: VInt(_m.be_int(s.z, 4))
+    sf["all_bytes4"] = lambda it, s: VBool(z3.And([z3.And(z3.StrToCode(z3.SubString(s.z, i, 1)) >= 0,
+                                                          z3.StrToCode(z3.SubString(s.z, i, 1)) <= 255) for i in range(4)]))
+    sf["noise_ok"] = lambda it, n, c: VBool(_noise_ufs()[0](n.z, c.z))
+    sf["noise_dec"] = lambda it, n, c: VStr(_noise_ufs()[1](n.z, c.z), "bytes")
     return reg
 
 
@@ -103,6 +147,18 @@ CONTRACTS = [
              requires=["self._can_send_frames", f"len(frame) < {U32}"],
              effects=[("write", ["be4(len(frame)) + frame"])],
              note="exactly one transport.write, of be4(len(frame)) + frame"),
+    Contract("lemma:be4_definition_injective", props=[PROP], source_module="wormhole/_dilation/encode.py",
+             params={"a": "bytes", "b": "bytes"},
+             source_text="""
+             def be4_definition_injective(a, b):
+                 return (a, b)
+             """,
+             requires=["len(a) == 4 and len(b) == 4", "all_bytes4(a) and all_bytes4(b)", "be_value4(a) == be_value4(b)"],
+             ensures=[("same-value-same-bytes", "a == b"), ("value-in-range", f"0 <= be_value4(a) and be_value4(a) < {U32}")],
+             note="the DEFINITION of '>L' (value = b0*2^24 + b1*2^16 + b2*2^8 + b3, each byte 0..255) is injective with range "
+                  "0..2^32-1, so `unpack` is a function and pack/unpack as defined are mutually inverse: the round-trip facts the "
+                  "struct model adds at each use (pyvc/models.py be4_of/unbe4_of) follow from the definition; what stays assumed "
+                  "is only that struct implements this definition"),
     Contract("lemma:frame_roundtrip", props=[PROP], source_module="wormhole/_dilation/connection.py",
              params={"fr": "obj[_Framer]", "f": "bytes", "rest": "bytes"},
              source_text="""
@@ -125,8 +181,9 @@ CONTRACTS = [
              ensures=[("nothing-yet", "result is None")],
              note="any proper prefix of a frame yields no frame (so fragmentation never produces a truncated frame)"),
     Contract("wormhole/_dilation/connection.py:_Framer._get_expected", props=[PROP],
-             params={"name": "str", "expected": "bytes"}, self_fields={"_buffer": "bytes"}, modifies=["_buffer"],
+             params={"name": "str", "expected": "bytes"}, self_fields={"_buffer": "bytes"}, modifies=["_buffer"], returns="bool",
              raises={"Disconnect": "not expected.startswith(self._buffer) and not self._buffer.startswith(expected)"},
+             ensures_raise={"Disconnect": [("buffer-kept-for-the-log", "self._buffer == old(self._buffer)")]},
              ensures=[("true-consumes-exactly-expected",
                        "implies(result, old(self._buffer) == expected + self._buffer)"),
                       ("false-keeps-buffer", "implies(not result, self._buffer == old(self._buffer) and "
@@ -135,19 +192,32 @@ CONTRACTS = [
                        "implies(not result, expected.startswith(self._buffer) or "
                        "(b'\\n' not in self._buffer and len(self._buffer) < len(expected)))")]),
     Contract("wormhole/_dilation/connection.py:_Framer.parse_prologue", props=[PROP], params={},
-             self_fields={"_buffer": "bytes", "_inbound_prologue": "bytes"}, modifies=["_buffer"],
+             self_fields={"_buffer": "bytes", "_inbound_prologue": "bytes"}, modifies=["_buffer"], returns="opt[nt[Prologue]]",
              raises={"Disconnect": "not self._inbound_prologue.startswith(self._buffer) and "
                                    "not self._buffer.startswith(self._inbound_prologue)"},
+             ensures_raise={"Disconnect": [("buffer-kept", "self._buffer == old(self._buffer)")]},
              ensures=[("token-only-after-exact-prologue",
                        "implies(result is not None, old(self._buffer) == self._inbound_prologue + self._buffer)"),
-                      ("no-token-keeps-buffer", "implies(result is None, self._buffer == old(self._buffer))")]),
+                      ("no-token-keeps-buffer", "implies(result is None, self._buffer == old(self._buffer))"),
+                      ("token-is-a-Prologue", "result is None or isinstance(result, Prologue)"),
+                      ("no-token-only-while-the-prologue-may-still-come",
+                       "implies(result is None, not self._buffer.startswith(self._inbound_prologue) and "
+                       "(self._inbound_prologue.startswith(self._buffer) or "
+                       "(b'\\n' not in self._buffer and len(self._buffer) < len(self._inbound_prologue))))")]),
     Contract("wormhole/_dilation/connection.py:_Framer.parse_relay_ok", props=[PROP], params={},
              self_fields={"_buffer": "bytes", "_expected_relay_handshake": "bytes"}, modifies=["_buffer"],
+             returns="opt[nt[RelayOk]]",
              raises={"Disconnect": "not self._expected_relay_handshake.startswith(self._buffer) and "
                                    "not self._buffer.startswith(self._expected_relay_handshake)"},
+             ensures_raise={"Disconnect": [("buffer-kept", "self._buffer == old(self._buffer)")]},
              ensures=[("token-only-after-exact-reply",
                        "implies(result is not None, old(self._buffer) == self._expected_relay_handshake + self._buffer)"),
-                      ("no-token-keeps-buffer", "implies(result is None, self._buffer == old(self._buffer))")]),
+                      ("no-token-keeps-buffer", "implies(result is None, self._buffer == old(self._buffer))"),
+                      ("token-is-a-RelayOK", "result is None or isinstance(result, RelayOK)"),
+                      ("no-token-only-while-the-reply-may-still-come",
+                       "implies(result is None, not self._buffer.startswith(self._expected_relay_handshake) and "
+                       "(self._expected_relay_handshake.startswith(self._buffer) or "
+                       "(b'\\n' not in self._buffer and len(self._buffer) < len(self._expected_relay_handshake))))")]),
     Contract("lemma:record_roundtrip", props=[PROP], source_module="wormhole/_dilation/connection.py",
              params={"r": RECORD},
              source_text="""
@@ -168,7 +238,15 @@ CONTRACTS = [
     Contract("wormhole/_dilation/connection.py:_Record.send_record", props=[PROP], params={"r": RECORD},
              self_fields={"_noise": "obj[Noise]", "_framer": "obj[_Framer]"},
              requires=[REC_REQ, "self._framer._can_send_frames", "payload_len(r) < 4000000000"],
+             modifies=["_noise.tx"],
+             ensures=[("one-nonce-per-packet", "self._noise.tx > old(self._noise.tx)")],
              internal_ensures=[
+                 ("nonces-used-are-consecutive", "self._noise.tx == old(self._noise.tx) + n_events('noise.encrypt') or len(message) > 65519"),
+                 ("multi-packet-nonces", "implies(len(message) > 65519, self._noise.tx == old(self._noise.tx) + ceil_div(len(message), 65519))"),
+                 ("every-packet-opens-to-its-slice-at-its-nonce",
+                  "implies(len(message) > 65519, forall(lambda k: implies(0 <= k and k < ceil_div(len(message), 65519), "
+                  "noise_ok(old(self._noise.tx) + k, frame[65535 * k:65535 * (k + 1)]) and "
+                  "noise_dec(old(self._noise.tx) + k, frame[65535 * k:65535 * (k + 1)]) == message[65519 * k:65519 * (k + 1)])))"),
                  ("one-frame", "bcalls('write') == 1 and len(bcall_names()) == 1 and "
                                "bcall_arg('write', 0, 0) == be4(len(frame)) + frame"),
                  ("single-packet-iff-fits", "implies(len(message) <= 65519, n_events('noise.encrypt') == 1 and "
@@ -181,25 +259,71 @@ CONTRACTS = [
                         "invariant": ["n_enc >= 0", "start == 65519 * n_enc",
                                       "n_enc == 0 or 65519 * (n_enc - 1) < len(message)",
                                       "len(frame) == min2(start, len(message)) + 16 * n_enc",
-                                      "len(message) > 65519"]}},
+                                      "len(message) > 65519",
+                                      "self._noise.tx == at_entry(self._noise.tx) + n_enc",
+                                      "forall(lambda k: implies(0 <= k and k < n_enc, "
+                                      "noise_ok(at_entry(self._noise.tx) + k, frame[65535 * k:65535 * (k + 1)]) and "
+                                      "noise_dec(at_entry(self._noise.tx) + k, frame[65535 * k:65535 * (k + 1)]) == "
+                                      "message[65519 * k:65519 * (k + 1)]))"],
+                        "modifies": [("self", "_noise", "tx")]}},
              note="chunk arithmetic of the sender: k-th Noise packet is message[65519k:65519(k+1)], every packet but the "
                   "last is exactly 65535 bytes of ciphertext"),
     Contract("wormhole/_dilation/connection.py:_Record.decrypt_message", props=[PROP], params={"frame": "bytes"},
-             self_fields={"_noise": "obj[Noise]", "_framer": "obj[_Framer]"},
+             self_fields={"_noise": "obj[Noise]", "_framer": "obj[_Framer]"}, returns=RECORD,
+             requires=["not self._noise.failed"], modifies=["_noise.rx", "_noise.failed"],
              raises={"Disconnect": "True", "ValueError": None, "UnicodeDecodeError": None},
-             ensures_raise={"Disconnect": [("only-on-noise-failure", "n_events('noise.decrypt.invalid') >= 1")]},
+             ensures_raise={"Disconnect": [("only-on-noise-failure", "self._noise.failed")]},
+             ensures=[("nothing-was-rejected", "not self._noise.failed"), ("nonce-advanced", "self._noise.rx > old(self._noise.rx)")],
              internal_ensures=[("no-forged-frame-gets-through", "n_events('noise.decrypt.invalid') == 0"),
+                               ("multi-packet-plaintext-is-the-slices-opened-at-consecutive-nonces",
+                                "implies(size > 65535, forall(lambda k: implies(0 <= k and k < n_dec, "
+                                "call_arg('parse_record', 0, 0)[65519 * k:65519 * (k + 1)] == "
+                                "noise_dec(old(self._noise.rx) + k, frame[65535 * k:65535 * (k + 1)]))))"),
                                ("single-packet-branch", "implies(size <= 65535, n_events('noise.decrypt') == 1)")],
              loops={0: {"header": "start < size",
                         "ghost_init": {"n_dec": "0"}, "ghost_update": {"n_dec": "n_dec + 1"},
                         "invariant": ["n_dec >= 0", "start == 65535 * n_dec", "size == len(frame)", "size > 65535",
-                                      "len(message) == min2(start, size) - 16 * n_dec"]}},
+                                      "len(message) == min2(start, size) - 16 * n_dec",
+                                      "self._noise.rx == at_entry(self._noise.rx) + n_dec and not self._noise.failed",
+                                      "forall(lambda k: implies(0 <= k and k < n_dec, message[65519 * k:65519 * (k + 1)] == "
+                                      "noise_dec(at_entry(self._noise.rx) + k, frame[65535 * k:65535 * (k + 1)])))"],
+                        "modifies": [("self", "_noise", "rx"), ("self", "_noise", "failed")]}},
              note="NoiseInvalidMessage (frame not produced with the key, or corrupted) always becomes Disconnect; "
                   "k-th slice is frame[65535k:65535(k+1)]"),
     Contract("wormhole/_dilation/connection.py:_Record.process_handshake", props=[PROP], params={"frame": "bytes"},
-             self_fields={"_noise": "obj[Noise]", "_framer": "obj[_Framer]"},
-             raises={"Disconnect": None},
-             ensures=[("handshake-token", "result is not None")]),
+             self_fields={"_noise": "obj[Noise]", "_framer": "obj[_Framer]"}, returns="nt[Handshake]",
+             modifies=["_noise.failed"], raises={"Disconnect": None},
+             ensures_raise={"Disconnect": [("only-on-a-rejected-handshake", "self._noise.failed")]},
+             ensures=[("handshake-token", "result is not None and isinstance(result, Handshake)"),
+                      ("accepted-means-nothing-rejected", "self._noise.failed == old(self._noise.failed)")]),
+    Contract("lemma:multi_packet_content", props=[PROP], source_module="wormhole/_dilation/connection.py",
+             params={"sent": "bytes", "got": "bytes", "frame": "bytes", "n0": "int", "N": "int"},
+             source_text="""
+             def multi_packet_content(sent, got, frame, n0, N):
+                 k = 0
+                 while k < N:          # induction over the packets; the asserts are proved (assert_mode="prove"), then used
+                     assert noise_dec(n0 + k, frame[65535 * k:65535 * (k + 1)]) == sent[65519 * k:65519 * (k + 1)]
+                     assert got[65519 * k:65519 * (k + 1)] == noise_dec(n0 + k, frame[65535 * k:65535 * (k + 1)])
+                     assert got[:65519 * (k + 1)] == got[:65519 * k] + got[65519 * k:65519 * (k + 1)]
+                     assert sent[:65519 * (k + 1)] == sent[:65519 * k] + sent[65519 * k:65519 * (k + 1)]
+                     k += 1
+                 return got
+             """, assert_mode="prove",
+             requires=["N >= 1 and 65519 * (N - 1) < len(sent) and len(sent) <= 65519 * N",
+                       "len(got) == len(sent)",
+                       "forall(lambda j: implies(0 <= j and j < N, noise_dec(n0 + j, frame[65535 * j:65535 * (j + 1)]) == "
+                       "sent[65519 * j:65519 * (j + 1)]))",
+                       "forall(lambda j: implies(0 <= j and j < N, got[65519 * j:65519 * (j + 1)] == "
+                       "noise_dec(n0 + j, frame[65535 * j:65535 * (j + 1)])))"],
+             ensures=[("plaintext-recovered-for-every-length", "result == sent")],
+             loops={0: {"header": "k < N", "invariant": ["0 <= k and k <= N", "got[:65519 * k] == sent[:65519 * k]"]}},
+             note="composition of the two proved postconditions for one frame and nonce counters in step (sender's tx == "
+                  "receiver's rx == n0): send_record `every-packet-opens-to-its-slice-at-its-nonce` (3rd premise, message = sent, "
+                  "N = ceil(len/65519) packets), decrypt_message `multi-packet-plaintext-is-the-slices-opened-at-consecutive-"
+                  "nonces` (4th premise, got = the plaintext handed to parse_record, same packet count by "
+                  "packet_boundaries_coincide), lengths by the two length clauses; conclusion: the receiver parses exactly the "
+                  "bytes the sender encoded, for every length (induction over the packets = the loop invariant). With "
+                  "record_roundtrip: decrypt_message(frame of send_record(r)) == r"),
     Contract("lemma:packet_boundaries_coincide", props=[PROP], source_module="wormhole/_dilation/connection.py",
              params={"L": "int", "k": "int"},
              source_text="""
@@ -221,6 +345,393 @@ CONTRACTS = [
              note="linear arithmetic over the two contracts: the receiver's k-th slice is exactly the sender's k-th "
                   "ciphertext, so the Noise nonce sequences stay aligned"),
 ]
+
+
+# ------------------------------------------------------------------ the inbound loops (generators)
+CON = "wormhole/_dilation/connection.py"
+FRAMER_FIELDS = {"__state": "state", "_buffer": "bytes", "_inbound_prologue": "bytes", "_outbound_prologue": "bytes",
+                 "_expected_relay_handshake": "bytes", "_can_send_frames": "bool", "_transport": "obj[Transport]"}
+# the framer object invariant: frames may be sent exactly once the peer's prologue has been seen
+FRAMER_INV = "in_state(self, 'want_frame') == self._can_send_frames"
+F_RELAY_DONE = "(at_entry(in_state(self, 'want_relay')) and not in_state(self, 'want_relay'))"
+F_PROLOGUE_DONE = "(not at_entry(in_state(self, 'want_frame')) and in_state(self, 'want_frame'))"
+
+GEN_CONTRACTS = [
+    Contract(f"{CON}:_Framer.add_and_parse", props=[PROP], params={"data": "bytes"}, self_fields=FRAMER_FIELDS,
+             requires=[FRAMER_INV], modifies=["__state", "_buffer", "_can_send_frames"],
+             raises={"Disconnect": "not in_state(self, 'want_frame')"},
+             ensures_raise={"Disconnect": [
+                 ("no-frame-was-yielded", "nfr == 0 and wire == b''"),
+                 ("only-when-the-stream-cannot-become-the-expected-handshake",
+                  "ite(in_state(self, 'want_relay'), "
+                  "not self._expected_relay_handshake.startswith(self._buffer) and not self._buffer.startswith(self._expected_relay_handshake), "
+                  "not in_state(self, 'want_frame') and "
+                  "not self._inbound_prologue.startswith(self._buffer) and not self._buffer.startswith(self._inbound_prologue))")]},
+             internal_ensures=[
+                 ("every-byte-accounted-for-in-order", "old(self._buffer) + data == hs + wire + self._buffer"),
+                 ("handshake-bytes-are-exactly-the-expected-reply-and-prologue",
+                  "hs == ite(old(in_state(self, 'want_relay')) and not in_state(self, 'want_relay'), self._expected_relay_handshake, b'') + "
+                  "ite(not old(in_state(self, 'want_frame')) and in_state(self, 'want_frame'), self._inbound_prologue, b'')"),
+                 ("yields-are-one-prologue-token-then-the-frames",
+                  "ny == npro + nfr and npro == ite(not old(in_state(self, 'want_frame')) and in_state(self, 'want_frame'), 1, 0)"),
+                 ("no-frame-before-the-prologue", "in_state(self, 'want_frame') or (nfr == 0 and wire == b'')"),
+                 ("remainder-holds-no-complete-token",
+                  "ite(in_state(self, 'want_frame'), len(self._buffer) < 4 or len(self._buffer) < 4 + be4_value(self._buffer[0:4]), "
+                  "ite(in_state(self, 'want_prologue'), not self._buffer.startswith(self._inbound_prologue), "
+                  "not self._buffer.startswith(self._expected_relay_handshake)))"),
+                 ("remainder-may-still-become-the-expected-handshake",
+                  "ite(in_state(self, 'want_frame'), True, ite(in_state(self, 'want_prologue'), "
+                  "self._inbound_prologue.startswith(self._buffer) or (b'\\n' not in self._buffer and len(self._buffer) < len(self._inbound_prologue)), "
+                  "self._expected_relay_handshake.startswith(self._buffer) or "
+                  "(b'\\n' not in self._buffer and len(self._buffer) < len(self._expected_relay_handshake))))"),
+                 ],
+             ensures=[("framer-invariant-kept", FRAMER_INV),
+                      ("state-only-advances", "(not old(in_state(self, 'want_frame')) or in_state(self, 'want_frame')) and "
+                                              "(not old(in_state(self, 'want_prologue')) or not in_state(self, 'want_relay'))")],
+             loops={0: {"header": "True",
+                        "ghost_init": {"hs": "b''", "wire": "b''", "nfr": "0", "npro": "0", "ny": "0"},
+                        "ghost_update": {"hs": "hs + handshake_bytes(self, at_iter(state_index(self)))", "wire": "wire + iter_frame_wire()",
+                                         "nfr": "nfr + iter_yields('Frame')", "npro": "npro + iter_yields('Prologue')",
+                                         "ny": "ny + iter_yields()"},
+                        "modifies": [("self", "__state"), ("self", "_buffer"), ("self", "_can_send_frames")],
+                        "body_ensures": [
+                            "iter_yields() == ite(at_iter(in_state(self, 'want_frame')), 1, ite(in_state(self, 'want_frame'), 1, 0))",
+                            "iter_yields() == iter_yields('Frame') + iter_yields('Prologue')",
+                            "iter_yields('Frame') == ite(at_iter(in_state(self, 'want_frame')), 1, 0)",
+                            "iter_own_bcalls('write') == ite(at_iter(in_state(self, 'want_relay')), 1, 0) and "
+                            "iter_own_bcalls() == iter_own_bcalls('write')",
+                            "iter_own_bcalls('write') == 0 or iter_own_bcall_arg('write', 0, 0) == self._outbound_prologue"],
+                        "invariant": [
+                            "at_entry(self._buffer) == hs + wire + self._buffer",
+                            "nfr >= 0 and npro >= 0 and ny == nfr + npro",
+                            "in_state(self, 'want_frame') or (nfr == 0 and wire == b'')",
+                            f"npro == ite({F_PROLOGUE_DONE}, 1, 0)",
+                            f"hs == ite({F_RELAY_DONE}, self._expected_relay_handshake, b'') + "
+                            f"ite({F_PROLOGUE_DONE}, self._inbound_prologue, b'')",
+                            "(not at_entry(in_state(self, 'want_frame')) or in_state(self, 'want_frame')) and "
+                            "(not at_entry(in_state(self, 'want_prologue')) or not in_state(self, 'want_relay'))",
+                            FRAMER_INV]}},
+             note="for ANY chunking: what was buffered plus this chunk == (relay reply)(prologue) ++ be4-framed frames yielded, in "
+                  "order ++ the remainder kept in _buffer; ghost `wire` is the concatenation of be4(len(f)) + f over the Frame "
+                  "tokens in the order they are yielded (read from the yield events); the remainder holds no complete token"),
+]
+
+AU = "_Record.add_and_unframe"
+DR = "DilatedConnectionProtocol.dataReceived"
+RECORD_FIELDS = {"__state": "state", "_framer": "obj[_Framer]", "_noise": "obj[Noise]"}
+# framer and record machines move in lock step: the record machine leaves want_prologue_* exactly when the framer has seen
+# the peer's prologue (established by DilatedConnectionProtocol.connectionMade: role set, both machines in their first state)
+COUPLED = ("not in_state(self, 'no_role_set') and in_state(self._framer, 'want_frame') == "
+           "in_state(self, 'want_handshake_leader', 'want_handshake_follower', 'want_message')")
+FRAMER_INV_R = "in_state(self._framer, 'want_frame') == self._framer._can_send_frames"
+IS_FRAME = "isinstance(token, Frame)"
+NOISE_OK = "not self._noise.failed"      # Noise has rejected nothing so far on this connection (else it was dropped)
+
+GEN_CONTRACTS += [
+    Contract(f"{CON}:{AU}", props=[PROP], params={"data": "bytes"}, self_fields=RECORD_FIELDS,
+             requires=[COUPLED, FRAMER_INV_R, NOISE_OK],
+             modifies=["__state", "_framer.__state", "_framer._buffer", "_framer._can_send_frames", "_noise.rx", "_noise.failed"],
+             raises={"Disconnect": None, "ValueError": None, "UnicodeDecodeError": None},
+             ensures=[("machines-still-in-lock-step", COUPLED), ("framer-invariant-kept", FRAMER_INV_R),
+                      ("nothing-was-rejected", NOISE_OK)],
+             ensures_raise=dict({e: [("the-failing-token-yields-nothing", f"body_yields('{AU}', '{AU}') == 0")]
+                                 for e in ("ValueError", "UnicodeDecodeError")},
+                                Disconnect=[("the-failing-token-yields-nothing",
+                                             f"body_inputs('{AU}', 'got_frame') == 0 or body_yields('{AU}', '{AU}') == 0")]),
+             loops={0: {"header": "for token in self._framer.add_and_parse(data)",
+                        "modifies": [("self", "__state"), ("self", "_noise", "rx"), ("self", "_noise", "failed")],
+                        "invariant": [COUPLED, NOISE_OK],
+                        "body_ensures": [
+                            f"body_inputs('{AU}', 'got_prologue') == ite(isinstance(token, Prologue), 1, 0)",
+                            f"body_inputs('{AU}', 'got_frame') == ite({IS_FRAME}, 1, 0)",
+                            f"implies({IS_FRAME}, body_input_arg('{AU}', 'got_frame', 0, 0) == token.frame)",
+                            f"body_yields('{AU}', '{AU}') == ite({IS_FRAME}, 1, 0)",
+                            f"implies({IS_FRAME}, isinstance(body_yield('{AU}', '{AU}', 0), Handshake_or_Records))",
+                            f"body_calls('{AU}', 'decrypt_message') == ite({IS_FRAME} and at_iter(in_state(self, 'want_message')), 1, 0)",
+                            f"body_calls('{AU}', 'process_handshake') == "
+                            f"ite({IS_FRAME} and at_iter(in_state(self, 'want_handshake_leader', 'want_handshake_follower')), 1, 0)",
+                            f"implies(body_calls('{AU}', 'decrypt_message') == 1, body_call_arg('{AU}', 'decrypt_message', 0, 1) == token.frame)",
+                            f"implies(body_calls('{AU}', 'process_handshake') == 1, body_call_arg('{AU}', 'process_handshake', 0, 1) == token.frame)",
+                            f"body_calls('{AU}', 'send_frame') == ite((isinstance(token, Prologue) and at_iter(in_state(self, 'want_prologue_leader')))"
+                            f" or ({IS_FRAME} and at_iter(in_state(self, 'want_handshake_follower'))), 1, 0)",
+                            f"body_bcalls('{AU}', 'write_message') == body_calls('{AU}', 'send_frame') and "
+                            f"(body_calls('{AU}', 'send_frame') == 0 or body_call_arg('{AU}', 'send_frame', 0, 1) == noise_handshake_out(0))"]}},
+             note="every Frame token of the framer goes to got_frame exactly once, in order, with exactly its bytes (so the k-th "
+                  "frame meets the k-th Noise decrypt); one value is yielded per Frame and none for the Prologue; the Noise "
+                  "handshake message is framed once: by the Leader on the prologue, by the Follower after reading the Leader's. "
+                  "Framer loop invariants are re-proved here with this loop body running at every yield (real interleaving)"),
+]
+
+DCP_FIELDS = {"__state": "state", "_connector": "obj[ConnectorB]", "_manager": "opt[obj[ManagerB]]",
+              "_inbound_record_queue": f"seq[{RECORD}]", "_can_send_records": "bool", "_disconnected": "obj[ObserverB]",
+              "_role": "opaque[Role]", "_record": "obj[_Record]", "transport": "obj[Transport]"}
+DCP_INV = "in_state(self, 'selected') == (self._manager is not None)"
+LINK_INV = [x.replace("self", "self._record") for x in (COUPLED, FRAMER_INV_R)]
+LINK_NOISE_OK = NOISE_OK.replace("self", "self._record")
+PLAIN = "(not isinstance(token, Handshake) and not isinstance(token, KCM))"
+FAILING = "'parse_prologue', 'parse_relay_ok', 'process_handshake', 'decrypt_message'"
+
+GEN_CONTRACTS += [
+    Contract(f"{CON}:{DR}", props=[PROP, "C11"], params={"data": "bytes"}, self_fields=DCP_FIELDS,
+             requires=[DCP_INV, LINK_NOISE_OK] + LINK_INV,
+             modifies=["__state", "_inbound_record_queue", "_record.__state", "_record._noise.rx", "_record._noise.tx",
+                       "_record._noise.failed", "_record._framer.__state", "_record._framer._buffer",
+                       "_record._framer._can_send_frames"],
+             raises={"NoTransition": None, "ValueError": None, "UnicodeDecodeError": None},
+             ensures_raise={
+                 "NoTransition": [("only-from-this-protocol's-own-table-KCM-twice-or-record-before-KCM",
+                                   "last_input_class() == 'DilatedConnectionProtocol'"),
+                                  ("the-offending-token-reaches-nobody", "actions_after_last_input() == 0")],
+                 "ValueError": [("nothing-at-all-happens-after-the-unparsable-record", "last_action() == 'decrypt_message'")],
+                 "UnicodeDecodeError": [("nothing-at-all-happens-after-the-unparsable-record", "last_action() == 'decrypt_message'")]},
+             ensures=[("selected-iff-manager", DCP_INV)] + [(f"link-invariant-{i}", x) for i, x in enumerate(LINK_INV)],
+             internal_ensures=[
+                 ("a-rejected-prologue-relay-reply-handshake-or-frame-always-closes-the-connection",
+                  f"bcalls('loseConnection') == unreturned_calls({FAILING}) and unreturned_calls() == unreturned_calls({FAILING})"),
+                 ("and-nothing-else-happens-after-the-rejected-token",
+                  "unreturned_calls() == 0 or (actions_after_failure() == 1 and last_action() == 'loseConnection')"),
+                 ("no-close-without-a-rejection", "unreturned_calls() > 0 or self._record._noise.failed == old(self._record._noise.failed)")],
+             loops={0: {"header": "for token in self._record.add_and_unframe(data)",
+                        "modifies": [("self", "__state"), ("self", "_inbound_record_queue"), ("self", "_record", "_noise", "tx")],
+                        "invariant": [DCP_INV],
+                        "body_ensures": [
+                            f"body_bcalls('{DR}', 'got_record') == ite(at_iter(in_state(self, 'selected')) and {PLAIN}, 1, 0)",
+                            f"implies(body_bcalls('{DR}', 'got_record') == 1, body_bcall_arg('{DR}', 'got_record', 0, 0) == token)",
+                            f"implies(at_iter(in_state(self, 'selecting')) and {PLAIN}, "
+                            f"self._inbound_record_queue == at_iter(self._inbound_record_queue) + [token])",
+                            f"(at_iter(in_state(self, 'selecting')) and {PLAIN}) or "
+                            f"self._inbound_record_queue == at_iter(self._inbound_record_queue)",
+                            f"body_calls('{DR}', 'send_record') == ite(isinstance(token, Handshake) and is_role(self._role, 'FOLLOWER'), 1, 0)",
+                            f"implies(body_calls('{DR}', 'send_record') == 1, isinstance(body_call_arg('{DR}', 'send_record', 0, 1), KCM))",
+                            f"body_inputs('{DR}', 'got_kcm') == ite(isinstance(token, KCM), 1, 0)",
+                            f"body_bcalls('{DR}', 'add_candidate') == body_inputs('{DR}', 'got_kcm')",
+                            f"body_bcalls('{DR}') == body_bcalls('{DR}', 'got_record', 'add_candidate')",
+                            f"body_inputs('{DR}', 'got_record') == ite({PLAIN}, 1, 0)"]}},
+             note="the three real bodies (dataReceived, add_and_unframe, add_and_parse) run interleaved as Python runs them; a "
+                  "Disconnect from the framer (wrong relay reply / prologue), from process_handshake or from decrypt_message "
+                  "(NoiseInvalidMessage) is caught, transport.loseConnection() is the one and only thing that happens after it; "
+                  "records reach manager.got_record only in `selected`, are queued in `selecting`; the Follower sends its KCM "
+                  "once per Handshake token; got_kcm only for a KCM that decrypt_message returned"),
+    Contract(f"{CON}:DilatedConnectionProtocol.connectionLost", props=[PROP, "C11"], params={"why": "opaque[Failure]"},
+             self_fields=DCP_FIELDS, modifies=[],
+             ensures=[("state-kept", "state_index(self) == old(state_index(self))")],
+             internal_ensures=[("observers-of-this-link-are-told-once", "bcalls('fire') == 1 and len(bcall_names()) == 1 and "
+                                                                        "bcall_arg('fire', 0, 0) is self")],
+             note="when_disconnected() observers (Manager.connector_connection_lost, wired at select()) fire exactly once; nothing "
+                  "is delivered to the manager from here"),
+]
+
+
+def regf_gen():
+    reg = regf()
+    reg.automat = AutomatSupport()
+    reg.automat.havoc_inputs = True        # a loop body that calls an Automat input may change the state / run its outputs
+    reg.lazy_generators = True             # `for x in gen()` interleaves the two real bodies (pyvc/interp.py: for_generator)
+    reg.check_loop_frame = True            # every location a loop iteration changes must be havocked at the cut
+    _setup_spec(reg)
+    _setup_gen_spec(reg)
+    reg.class_fields["_Framer"] = dict(FRAMER_FIELDS)
+    reg.class_fields["_Record"] = dict(RECORD_FIELDS)
+    reg.boundary["Noise.write_message"] = noise_write_message
+    reg.class_fields["_Record"]["_role"] = "opaque[Role]"
+    from . import c11
+    c11.install_roles(reg)
+    return reg
+
+
+def regf_dcp():
+    """dataReceived: an input of the protocol's own machine that has no row raises automat.NoTransition (what Automat does);
+    the contract says which inputs that can be (never one of the framer's or the record layer's)"""
+    reg = regf_gen()
+    reg.automat.notransition_raises = True
+    return reg
+
+
+def _iter_events(it, name):
+    """events of the current loop iteration made by the loop's own function: what a consumer's loop body did while the
+    generator was suspended at a yield (bracketed by for-body-start / for-body-end) is not the generator's doing"""
+    tr = it.ctx.trace
+    start = max([i for i, e in enumerate(tr) if e[0] == "loop-body-start"] + [-1])
+    out, depth = [], 0
+    for e in tr[start + 1:]:
+        if e[0] == "for-body-start":
+            depth += 1
+        elif e[0] == "for-body-end":
+            depth -= 1
+        elif depth == 0 and e[0] == name:
+            out.append(e)
+    return out
+
+
+def _setup_gen_spec(reg):
+    sf = reg.spec_funcs
+
+    def iter_yields(it, kind=None):
+        """number of values the generator under verification yielded in the current loop iteration (of the given namedtuple type)"""
+        evs = [e for e in _iter_events(it, "yield") if e[1][1].endswith("_Framer.add_and_parse")]
+        if kind is not None:
+            kind = it.concrete(kind)
+            evs = [e for e in evs if isinstance(it.force(e[1][0]), VTuple) and it.force(e[1][0]).ntname == kind]
+        return VInt(len(evs))
+
+    sf["iter_yields"] = iter_yields
+
+    def iter_frame_wire(it):
+        """be4(len(f)) + f for every Frame token f yielded in the current iteration, concatenated in yield order"""
+        out = VStr(z3.StringVal(""), "bytes")
+        for e in _iter_events(it, "yield"):
+            if not e[1][1].endswith("_Framer.add_and_parse"):
+                continue
+            v = it.force(e[1][0])
+            if isinstance(v, VTuple) and v.ntname == "Frame":
+                f = v.items[0]
+                out = VStr(z3.Concat(out.z, models_be4(it, z3.Length(f.z)), f.z), "bytes")
+        return out
+
+    sf["iter_frame_wire"] = iter_frame_wire
+
+    def iter_own_bcalls(it, *names):
+        want = set(it.concrete(n) for n in names)
+        return VInt(sum(1 for e in _iter_events(it, "bcall") if not want or e[1][1] in want))
+
+    def iter_own_bcall_arg(it, name, k, i):
+        name, k, i = it.concrete(name), it.concrete(k), it.concrete(i)
+        evs = [e for e in _iter_events(it, "bcall") if e[1][1] == name]
+        return evs[k][1][2][i] if k < len(evs) else VObj("<missing>")
+
+    sf["iter_own_bcalls"] = iter_own_bcalls
+    sf["iter_own_bcall_arg"] = iter_own_bcall_arg
+
+    def handshake_bytes(it, fr_obj, before):
+        """what a framer state change consumed: the relay reply (want_relay left), the prologue (want_frame entered);
+        `before` is the state index before the change"""
+        fr_obj = it.force(fr_obj)
+        st = fr_obj.fields["__state"].z
+        m = it.reg.automat.machine_of(it.reg.repo_classes[fr_obj.cls])
+        relay, frm = m.index("want_relay"), m.index("want_frame")
+        a = z3.If(z3.And(before.z == relay, st != relay), fr_obj.fields["_expected_relay_handshake"].z, z3.StringVal(""))
+        b = z3.If(z3.And(before.z != frm, st == frm), fr_obj.fields["_inbound_prologue"].z, z3.StringVal(""))
+        return VStr(z3.Concat(a, b), "bytes")
+
+    sf["handshake_bytes"] = handshake_bytes
+
+    def body_events(it, loop_fn):
+        """events since the loop body of the generator-for in function `loop_fn` last started (for_generator marks it)"""
+        loop_fn = it.concrete(loop_fn)
+        tr = it.ctx.trace
+        start = max([i for i, e in enumerate(tr) if e[0] == "for-body-start" and e[1][0].endswith(loop_fn)] + [-1])
+        return tr[start + 1:]
+
+    def body_inputs(it, loop_fn, *names):
+        want = set(it.concrete(n) for n in names)
+        return VInt(sum(1 for e in body_events(it, loop_fn) if e[0] == "input" and e[1][0] in want))
+
+    def body_input_arg(it, loop_fn, name, k, i):
+        name, k, i = it.concrete(name), it.concrete(k), it.concrete(i)
+        evs = [e for e in body_events(it, loop_fn) if e[0] == "input" and e[1][0] == name]
+        return evs[k][1][1][i] if k < len(evs) else VObj("<missing>")
+
+    def body_yields(it, loop_fn, gen):
+        gen = it.concrete(gen)
+        return VInt(sum(1 for e in body_events(it, loop_fn) if e[0] == "yield" and e[1][1].endswith(gen)))
+
+    def body_yield(it, loop_fn, gen, k):
+        gen, k = it.concrete(gen), it.concrete(k)
+        evs = [e for e in body_events(it, loop_fn) if e[0] == "yield" and e[1][1].endswith(gen)]
+        return evs[k][1][0] if k < len(evs) else VObj("<missing>")
+
+    def body_calls(it, loop_fn, *suffixes):
+        want = tuple(it.concrete(n) for n in suffixes)
+        return VInt(sum(1 for e in body_events(it, loop_fn) if e[0] == "call" and e[1][0].endswith(want)))
+
+    def body_call_arg(it, loop_fn, suffix, k, i):
+        suffix, k, i = it.concrete(suffix), it.concrete(k), it.concrete(i)
+        evs = [e for e in body_events(it, loop_fn) if e[0] == "call" and e[1][0].endswith(suffix)]
+        return evs[k][1][1][i] if k < len(evs) and i < len(evs[k][1][1]) else VObj("<missing>")
+
+    def body_bcalls(it, loop_fn, *names):
+        want = set(it.concrete(n) for n in names)
+        return VInt(sum(1 for e in body_events(it, loop_fn) if e[0] == "bcall" and (e[1][1] in want or not want)))
+
+    def body_bcall_arg(it, loop_fn, name, k, i):
+        name, k, i = it.concrete(name), it.concrete(k), it.concrete(i)
+        evs = [e for e in body_events(it, loop_fn) if e[0] == "bcall" and e[1][1] == name]
+        return evs[k][1][2][i] if k < len(evs) else VObj("<missing>")
+
+    for f_ in (body_inputs, body_input_arg, body_yields, body_yield, body_calls, body_call_arg, body_bcalls, body_bcall_arg):
+        sf[f_.__name__] = f_
+
+    def unreturned_calls(it, *suffixes):
+        """contract-applied calls (to the named functions) that ended by raising: a `call` event not followed by its `callret`"""
+        want = tuple(it.concrete(n) for n in suffixes)
+        tr = it.ctx.trace
+        n = 0
+        for i, e in enumerate(tr):
+            if e[0] == "call" and (not want or e[1][0].endswith(want)):
+                if not (i + 1 < len(tr) and tr[i + 1][0] == "callret" and tr[i + 1][1][0] == e[1][0]):
+                    n += 1
+        return VInt(n)
+
+    sf["unreturned_calls"] = unreturned_calls
+
+    def noise_handshake_out(it, k):
+        k = it.concrete(k)
+        evs = [e for e in it.ctx.trace if e[0] == "noise.write_message"]
+        return evs[-1 - k][1][0] if k < len(evs) else VObj("<missing>")
+
+    sf["noise_handshake_out"] = noise_handshake_out
+
+    def last_action(it):
+        """name of the last boundary call / Automat input / contract call on this path"""
+        for e in reversed(it.ctx.trace):
+            if e[0] == "bcall":
+                return VStr(e[1][1])
+            if e[0] == "input":
+                return VStr(e[1][0])
+            if e[0] == "call":
+                return VStr(e[1][0].split(".")[-1])
+        return VStr("")
+
+    sf["last_action"] = last_action
+
+    def last_input_class(it):
+        for e in reversed(it.ctx.trace):
+            if e[0] == "input":
+                return VStr(e[1][2] if len(e[1]) > 2 else "?")
+        return VStr("")
+
+    sf["last_input_class"] = last_input_class
+
+    def _actions_after(it, idx):
+        return VInt(sum(1 for e in it.ctx.trace[idx + 1:] if e[0] in ("bcall", "input", "call")))
+
+    def actions_after_failure(it):
+        """boundary calls / inputs / contract calls made after the last contract call that raised"""
+        tr = it.ctx.trace
+        last = -1
+        for i, e in enumerate(tr):
+            if e[0] == "call" and not (i + 1 < len(tr) and tr[i + 1][0] == "callret" and tr[i + 1][1][0] == e[1][0]):
+                last = i
+        return _actions_after(it, last) if last >= 0 else VInt(0)
+
+    def actions_after_last_input(it):
+        tr = it.ctx.trace
+        idx = max([i for i, e in enumerate(tr) if e[0] == "input"] + [-1])
+        return _actions_after(it, idx) if idx >= 0 else VInt(0)
+
+    sf["actions_after_failure"] = actions_after_failure
+    sf["actions_after_last_input"] = actions_after_last_input
+    sf["state_index"] = lambda it, o: VInt(it.force(o).fields["__state"].z)
+
+
+def models_be4(it, z):
+    from pyvc import models
+    return models.be4_of(it, z)
+
+
+for _c in CONTRACTS:
+    if _c.target.endswith(("_Record.send_record", "_Record.decrypt_message", "lemma:multi_packet_content")):
+        _c.qf_feasibility = True      # branch pruning without the quantified per-packet facts (only ever keeps more paths)
 
 
 def regf_lemma():
@@ -282,14 +793,43 @@ def tasks():
     out = []
     for c in CONTRACTS:
         out.append(ContractTask(c, _wrap(regf_lemma) if c.target == "lemma:record_roundtrip" else _wrap(regf)))
+    for c in GEN_CONTRACTS:
+        out.append(ContractTask(c, regf_dcp if "DilatedConnectionProtocol" in c.target else regf_gen))
     return out
 
 
 TRUSTED = ["z3/cvc5", "pyvc semantics of the Python subset (slicing normalisation, bytes as code-point strings)",
-           "struct.pack/unpack('>L'): 4 bytes, mutually inverse (assumed contract, ground instances)",
+           "pyvc semantics of Automat dispatch (state set first, outputs in order, collector) and of generators consumed by a "
+           "for loop: the generator body and the loop body are run interleaved, as CPython does (pyvc/interp.py for_generator; "
+           "refused when a yield sits inside try/with); loops inside are cut with their own invariants plus those of every "
+           "enclosing generator-for, and every location an iteration changes must have been havocked (loop frame obligation)",
+           "struct.pack/unpack('>L') implement the big-endian definition value = b0*2^24 + b1*2^16 + b2*2^8 + b3 (library "
+           "axiom); that this definition is injective with range 0..2^32-1 - hence the round trip - is proved "
+           "(lemma:be4_definition_injective); the model still adds the round-trip instances at each use for speed",
            "utf-8 codec: decode(encode(s)) == s (assumed contract)",
-           "Noise: encrypt adds 16 bytes; decrypt either raises NoiseInvalidMessage or returns len-16 bytes; forgery without "
-           "the key raises (AEAD idealisation)"]
-ASSUMPTIONS = ["Noise AEAD strength", "content equality across the multi-packet split/merge is not proved (packet boundaries "
-               "and counts are); _Framer.add_and_parse / DilatedConnectionProtocol.dataReceived loops are covered by C12's "
-               "later machine-level tasks when built"]
+           "Noise (AEAD with stateful nonce counters, ghost fields tx/rx/failed): encrypt at sending nonce n returns c with "
+           "len(c) == len(p) + 16, noise_ok(n, c) and noise_dec(n, c) == p, and advances tx; decrypt at receiving nonce n "
+           "raises NoiseInvalidMessage iff not noise_ok(n, c), else returns noise_dec(n, c) (16 bytes shorter) and advances rx; "
+           "read_message either rejects the handshake or accepts it; write_message returns at most 65535 bytes; that only a "
+           "holder of the dilation key can produce a c with noise_ok(n, c) is the AEAD idealisation (not proved)",
+           "Twisted: an exception escaping dataReceived makes the reactor drop the connection; transport.loseConnection() "
+           "stops further dataReceived calls"]
+ASSUMPTIONS = [
+    "Noise AEAD strength (see TRUSTED)",
+    "multi-packet content equality is proved in three steps, not as one run of both real bodies in a single harness: "
+    "send_record (every packet k opens at nonce tx0+k to message[65519k:65519(k+1)]), decrypt_message (plaintext slice k == "
+    "noise_dec(rx0+k, frame[65535k:65535(k+1)])), and lemma:multi_packet_content (induction over the packets: the plaintext "
+    "parsed == the message encoded, every length) whose premises are exactly those two postconditions with tx0 == rx0; "
+    "that parse_record is a function of its argument (no hidden state) is what lets record_roundtrip finish the argument",
+    "dataReceived: a key holder's frame that decrypts but does not parse (unknown type byte, short field, non-UTF8 "
+    "subprotocol) raises ValueError / UnicodeDecodeError out of dataReceived, a second KCM or a record before any KCM raises "
+    "automat.NoTransition; in each case nothing at all happens after the offending token (proved) and the connection is "
+    "dropped by Twisted (trusted), not by loseConnection()",
+    "preconditions of the inbound loops (stated, established by DilatedConnectionProtocol.connectionMade, which is not under "
+    "contract: it builds the framer / record objects with attrs validators and zope interfaces): the role is set, framer and "
+    "record machines are in lock step (framer want_frame <=> record past want_prologue_*), _can_send_frames <=> want_frame, "
+    "Noise has rejected nothing so far, selected <=> a manager is set",
+    "any chunking: proved per call of add_and_parse for an arbitrary buffered remainder and an arbitrary chunk (old buffer + "
+    "data == consumed handshake bytes ++ be4-framed frames yielded in order ++ new remainder, remainder holds no complete "
+    "token); the composition over a sequence of calls is the induction this per-call statement is the step of (argued)",
+    "Connector.build_protocol (psk = dilation key, leader = initiator, opposite prologues) is not under contract here"]
